@@ -111,8 +111,8 @@ class _SequenceIORegistry(object):
   def get(self, path: Union[str, os.PathLike[str]]) -> SequenceIO:
     """Gets the record IO system for a path."""
     path = file_system.resolve_path(path)
-    parts = path.split('.')
-    if parts:
+    parts = os.path.basename(path).split('.')
+    if len(parts) > 1:
       extension = parts[-1].lower()
       if '@' in extension:
         extension = extension.split('@')[0]
